@@ -277,13 +277,16 @@ fn candidates(dom: &Dom, rng: &mut XorShift) -> Vec<Big> {
                 }
             }
             // far points on infinite sides
+            // (a guessed big-M constant such as 1e6 or 1e9 is exposed only beyond it)
             if !lo.is_finite() {
-                v.push(big(-64.0));
-                v.push(big(-1024.0));
+                for k in [6, 10, 21, 34] {
+                    v.push(big(-((1u64 << k) as f64)));
+                }
             }
             if !hi.is_finite() {
-                v.push(big(64.0));
-                v.push(big(1024.0));
+                for k in [6, 10, 21, 34] {
+                    v.push(big((1u64 << k) as f64));
+                }
             }
             v.sort();
             v.dedup();
